@@ -1,6 +1,7 @@
 """C19 — any configuration either loads or is rejected with an error, never a crash; time periods
 are accepted exactly per the documented grammar and equal the sum of their parts."""
 import os
+import re
 import shutil
 
 import cfggen
@@ -8,6 +9,7 @@ import ext.auditd_c19 as auditd
 import gen
 import mockca
 import vlib
+from ext import depthlim
 
 FINISH = dict(
     level="proof",
@@ -50,6 +52,18 @@ FINISH = dict(
          "characters (16-bit column counter of minijinja: panics only where overflow checks are on); the pid file left behind "
          "when the daemon exits 0 for lack of certificates.",
 )
+
+FINISH["rule"] += (
+    " limits (py/ext/depthlim.py): hook-group chains and include chains one below / at / one and two above "
+    "MAX_HOOK_GROUP_DEPTH and MAX_INCLUDE_DEPTH, flat / doubling / hollow (groups of empty groups, fan-out 2 and 3) "
+    "families around MAX_HOOK_GROUP_MEMBERS visited members, a cycle and a repeated file met deeper than the limit, "
+    "and far above: 20000 nested groups, 5000 nested includes, 30 doubling groups, 31-32 hollow levels — these run "
+    "one per process under a 3 GiB address-space cap and a 20 s time-out (thorough tier: release build too); a "
+    "silent process is judged hung; accepted/rejected is compared with the Lean model of the same tree (c14_load)."
+)
+FINISH["trusted_base"].append(
+    "py/gen.py extractor of MAX_HOOK_GROUP_DEPTH / MAX_HOOK_GROUP_MEMBERS / MAX_INCLUDE_DEPTH (Gen/Consts.lean; "
+    "theorems of Props/C19Depth.lean); the number of stack frames is proved bounded, the size of a frame is observed")
 
 UNITS = "smhdw"
 MULT = {"s": 1, "m": 60, "h": 3600, "d": 86400, "w": 604800}
@@ -164,7 +178,8 @@ def start_obs(res):
     res = res if isinstance(res, dict) else {"died": True}
     fr = (res.get("loaded") or {}).get("first_requests", []) if isinstance(res.get("loaded"), dict) else []
     return {"died": bool(res.get("died")), "panicked": "panic" in res, "rejected": "rejected" in res,
-            "loaded": "loaded" in res, "late": [r[2] for r in fr if r[1] == "timeout"], "timeout_ms": TIMEOUT_MS}
+            "loaded": "loaded" in res, "late": [r[2] for r in fr if r[1] == "timeout"], "timeout_ms": TIMEOUT_MS,
+            "silent": bool(res.get("silent"))}
 
 
 def classify(res):
@@ -172,6 +187,8 @@ def classify(res):
     time-out is a hang only if the model of the limiter (`sleepMs`, proved ≤ 1 h and followed by an
     admission: Props/C09 `sleepMs_bounds`, `admits_after_quiet`) does not predict the wait: the
     limiter sleeps *before* its first test, by design."""
+    if res is not None and res.get("silent"):
+        return "hung"
     if res is None or res.get("died"):
         return "died"
     if "panic" in res:
@@ -188,6 +205,13 @@ def classify(res):
             return "hung"
         return "starts"
     return "unknown"
+
+
+def depthlim_extra(fam):
+    """The included files of an include family, for the replay file ({relative path: text})."""
+    if not fam or "files" not in fam:
+        return {}
+    return {rel: "include = %s\n" % cfggen._val(incs) for rel, incs in fam["files"].items() if rel != "main.toml"}
 
 
 def config_part(ctx):
@@ -219,11 +243,51 @@ def config_part(ctx):
             cases.append((label, cfggen.write(os.path.join(d, "main.toml"), cfg), cfg))
         idx = auditd.add_cases(ctx, cases, scratch, url, helper, idx)
         ops = [{"op": "first_request", "path": p, "timeout_ms": TIMEOUT_MS} for _, p, _ in cases]
+        # the limit families (py/ext/depthlim.py): what the Lean model says of the same tree, and which of
+        # them run in a process of their own (address-space cap, time-out)
+        D, M, I = depthlim.consts(cfggen.LIMIT_CONSTS)
+        fams = {f["label"]: f for f in depthlim.hook_families(D, M, "h1") + depthlim.include_families(I)}
+        lim = [k for k, (label, _, _) in enumerate(cases) if label in fams]
+        expect = {}
+        mtrees = []
+        for k in lim:
+            label, path, cfg = cases[k]
+            files = {"main.toml": cfg}
+            for rel, incs in fams[label].get("files", {}).items():
+                if rel != "main.toml":
+                    files[rel] = {"include": incs}
+            mtrees.append(depthlim.model_tree(files))
+        for k, m in zip(lim, vlib.model(mtrees, timeout=1800) if mtrees else []):
+            expect[k] = depthlim.model_expect(m)
+        # … and every other case of unbounded depth / size / fan-out (cfggen.hazards_more): a regression there
+        # is a stack overflow, an allocation failure or a hang — of ONE process with a time-out, not of the batch
+        risky = re.compile(r"^(group-(tripling-empty|doubling|deep-acyclic|deep)-\S+|group-\d+-members|include-chain-\d+)$")
+        isolated = [k for k, (label, _, _) in enumerate(cases)
+                    if (label in fams and "isolated" in fams[label]["tags"]) or risky.match(label)]
+        batch = [k for k in range(len(cases)) if k not in isolated]
+        impl = [None] * len(cases)
         # several probe processes: most of the time is the limiter's first sleep (100 ms) and the time-outs
-        impl = auditd.probe_parallel(ops)
+        for k, r in zip(batch, auditd.probe_parallel([ops[k] for k in batch])):
+            impl[k] = r
+        binaries = [("dev", vlib.ACMED_DEV)] + ([] if ctx.quick() else [("release", vlib.build_acmed(release=True))])
+        extra_runs = []
+        for k in isolated:
+            for bname, binary in binaries:
+                r = depthlim.run_isolated(binary, ops[k], timeout=depthlim.ISOLATED_TIMEOUT if cases[k][0] in fams else 120.0)
+                ctx.count("config:isolated:%s:%s" % (bname, cases[k][0]))
+                if bname == "dev":
+                    impl[k] = r
+                else:
+                    extra_runs.append((k, bname, r))
         # the raw observation goes to Lean: Spec.C19.classify + startupHolds (no interpretation here)
         cverdicts = vlib.model([{"op": "c19_judge", "start_obs": start_obs(res)} for res in impl]) if impl else []
+        # (a start-up that stayed silent in its own process for 20 s is not observed again without a time-out)
+        silent = {k: cverdicts[k] for k in isolated if cverdicts[k].get("class") == "hung"}
+        for k in silent:
+            cverdicts[k] = dict(silent[k], **{"class": "hung-in-isolation"})
         auditd.reobserve_hung(ctx, ops, impl, cverdicts, start_obs)
+        for k, v in silent.items():
+            cverdicts[k] = v
         classes = [cv.get("class", "unknown") for cv in cverdicts]
         for (label, path, cfg), res, cls, cv in zip(cases, impl, classes, cverdicts):
             ctx.count("config:" + cls)
@@ -232,14 +296,47 @@ def config_part(ctx):
                 with open(path) as f:
                     text = f.read()
                 ctx.violation("configuration %s: outcome %s (%s)" % (label, cls, str(res)[:200]),
-                              {"op": "first_request", "label": label, "config_text": text, "impl": res})
+                              {"op": "first_request", "label": label, "config_text": text, "impl": res,
+                               "extra_files": depthlim_extra(fams.get(label))})
+        # the release build of the deep cases (frames are smaller there: the sizes differ, the judge not)
+        rverdicts = vlib.model([{"op": "c19_judge", "start_obs": start_obs(r)} for _, _, r in extra_runs]) if extra_runs else []
+        for (k, bname, r), cv in zip(extra_runs, rverdicts):
+            label, path, cfg = cases[k]
+            ctx.count("config:%s:%s" % (bname, cv.get("class", "unknown")))
+            if not cv.get("holds"):
+                with open(path) as f:
+                    text = f.read()
+                ctx.violation("configuration %s (%s build): outcome %s (%s)" % (label, bname, cv.get("class"), str(r)[:200]),
+                              {"op": "first_request", "label": label, "config_text": text, "impl": r, "build": bname,
+                               "extra_files": depthlim_extra(fams.get(label))})
+            elif k in expect and (cv.get("class") == "rejected") != (expect[k][0] == "rejected"):
+                ctx.disagreements += 1
+                ctx.broke("correspondence", "configuration %s (%s build): %s, the model says %s (%s)" % (
+                    label, bname, cv.get("class"), expect[k][0], expect[k][1]), {"label": label})
+        # model and code agree on where the limits bite; the catalogue (plain arithmetic) agrees with both
+        for k in lim:
+            label = cases[k][0]
+            ctx.count("limits:model:%s:%s" % (expect[k][0], expect[k][1] or "ok"))
+            if fams[label]["expect"] != expect[k][0]:
+                ctx.broke("catalogue", "%s: the catalogue expects %s, the model says %s (%s)" % (
+                    label, fams[label]["expect"], expect[k][0], expect[k][1]), {"label": label})
+            if classes[k] in ("starts", "starts-after-limiter-sleep", "rejected") and \
+                    (classes[k] == "rejected") != (expect[k][0] == "rejected"):
+                ctx.disagreements += 1
+                with open(cases[k][1]) as f:
+                    text = f.read()
+                ctx.broke("correspondence", "configuration %s: the daemon %s, the model says %s (%s)" % (
+                    label, classes[k], expect[k][0], expect[k][1]),
+                    {"op": "first_request", "label": label, "config_text": text[:20000], "impl": impl[k], "model": expect[k]})
         for lab in ("group-cycle-1", "rate-0-5s", "include-cycle-2"):
             for (label, path, cfg), res in zip(cases, impl):
                 if label == lab:
                     ctx.sample({"config": label, "outcome": classify(res)})
         ctx.traces += len(cases)
-        auditd.first_schedule_part(ctx, cases, helper, scratch)
-        auditd.daemon_part(ctx, cases)
+        # a configuration that already crashed or hung the loader is not loaded again without a time-out
+        answered = [c for c, cls in zip(cases, classes) if cls not in ("hung", "died", "unknown")]
+        auditd.first_schedule_part(ctx, answered, helper, scratch)
+        auditd.daemon_part(ctx, answered)
     finally:
         ca.stop()
         helper.close()
@@ -263,7 +360,10 @@ def replay(ctx):
         d = os.path.join(vlib.BUILD, "scratch", "c19-replay")
         shutil.rmtree(d, ignore_errors=True)
         p = cfggen.write(os.path.join(d, "main.toml"), obj["config_text"])
-        res = vlib.probe([{"op": "first_request", "path": p, "timeout_ms": TIMEOUT_MS}])[0]
+        for rel, text in (obj.get("extra_files") or {}).items():
+            cfggen.write(os.path.join(d, rel), text)
+        binary = vlib.build_acmed(release=True) if obj.get("build") == "release" else vlib.ACMED_DEV
+        res = depthlim.run_isolated(binary, {"op": "first_request", "path": p, "timeout_ms": TIMEOUT_MS})
         print("configuration %s: %s -> %s" % (obj.get("label"), res, classify(res)))
         return 0 if classify(res) in ("starts", "rejected", "starts-after-limiter-sleep") else 1
     if "probe" in obj:
@@ -277,7 +377,8 @@ def replay(ctx):
 def run(ctx):
     if ctx.replay:
         return replay(ctx)
-    gen.gen_consts()
+    vals = gen.gen_consts()
+    cfggen.LIMIT_CONSTS.update({k: vals[k] for k in cfggen.LIMIT_CONSTS if k in vals})
     ctx.prove()
     vlib.build_acmed()
     vlib.build_helper()
